@@ -291,7 +291,7 @@ def gen_history(seed):
         batch, order = order[:b], order[b:]
         if rng.chance(0.2):
             batch = batch + [rng.choice(ids[: len(ids)])]
-        ops.append({"op": "store", "ids": batch})
+        ops.append({"op": "store", "ids": batch, "get_correlation": bool(rng.chance(0.75))})
     nrx = 0
     for _ in range(rng.randint(3, 9)):
         c = rng.weighted([("add", 5), ("fit", 3), ("reset", 1), ("lik", 2), ("store", 1)])
@@ -324,7 +324,29 @@ def gen_history(seed):
         ops.append({"op": "add", "rxns": [gen_reaction(rng, cfg, ids) for _ in range(rng.randint(2, 5))]})
         ops.append({"op": "fit", "x": None, "sigma_min": 0.25})
         ops.append({"op": "lik", "x": None, "sigma_min": 0.25})
-    return {"cfg": cfg, "ops": ops}
+    # systems stored without correlation covariances must be stored again before a mode-2
+    # reaction uses them (the documented workflow); insert those stores
+    fixed = []
+    cstored = set()
+    for o in ops:
+        if o["op"] == "ctrl":
+            cstored = set()
+        elif o["op"] == "store":
+            if o.get("get_correlation", True):
+                cstored |= set(o["ids"])
+        elif o["op"] == "add":
+            need = set()
+            for mode, rxn in o["rxns"]:
+                if mode == 2:
+                    for st_ in rxn["structs"]:
+                        sid = st_[0] if isinstance(st_, (list, tuple)) else st_
+                        if sid not in cstored:
+                            need.add(sid)
+            if need:
+                fixed.append({"op": "store", "ids": sorted(need), "get_correlation": True})
+                cstored |= need
+        fixed.append(o)
+    return {"cfg": cfg, "ops": fixed}
 
 
 # ---------------------------------------------------------------------------------
@@ -615,11 +637,16 @@ def exec_history(hist, workdir, collect=None, light=False):
                   dg.add_array(np.asarray(kern.X1ctrl))
               stats["ctrl_points"] += sum(k.Nctrl for k in gp.kernels)
           elif c == "store":
-              call("store_mol_covs", gp.store_mol_covs, ddir, list(op["ids"]))
+              gc = op.get("get_correlation", True)
+              call("store_mol_covs", gp.store_mol_covs, ddir, list(op["ids"]), get_correlation=gc)
+              if not gc:
+                  stats["stores_exchange_only"] += 1
               for sid in op["ids"]:
                   stored.add(sid)
               # per-system vectors against the one-pass reference
               for ik, kern in enumerate(gp.kernels):
+                  if not gc and kern.component != "x":
+                      continue
                   for sid in set(op["ids"]):
                       q = ref.system(ik, sid)
                       got = np.asarray(kern.cov_dict[sid])
@@ -643,7 +670,9 @@ def exec_history(hist, workdir, collect=None, light=False):
               ex = gp.exx_ref_dict
               for sid in set(op["ids"]):
                   want = float((data[sid]["val"] * data[sid]["wt"]).sum())
-                  if abs(ex[sid] - want) > 1e-12 * max(1, abs(want)):
+                  if sid not in ex:
+                      V("system:exx_ref:missing", "%s: store_mol_covs(get_correlation=%s) did not store the reference energy (kernel order %s)" % (sid, gc, [k.component for k in gp.kernels]))
+                  elif abs(ex[sid] - want) > 1e-12 * max(1, abs(want)):
                       V("system:exx_ref:mismatch", "%s %r vs %r" % (sid, ex[sid], want))
           elif c == "add":
               call("add_reactions", gp.add_reactions, [rxn_to_pkg(r) for r in op["rxns"]])
@@ -871,7 +900,31 @@ def minimise(v):
         return v
     key = v["key"]
 
+    def valid(ops_):
+        """only histories that follow the documented workflow are candidates: every system a
+        reaction names was stored after the last set_control_points (with correlation
+        covariances for mode-2 reactions), and the first op sets the control points"""
+        if not ops_ or ops_[0]["op"] != "ctrl":
+            return False
+        st_x, st_c = set(), set()
+        for o in ops_:
+            if o["op"] == "ctrl":
+                st_x, st_c = set(), set()
+            elif o["op"] == "store":
+                st_x |= set(o["ids"])
+                if o.get("get_correlation", True):
+                    st_c |= set(o["ids"])
+            elif o["op"] == "add":
+                for mode, rxn in o["rxns"]:
+                    for st_ in rxn["structs"]:
+                        sid = st_[0] if isinstance(st_, (list, tuple)) else st_
+                        if sid not in st_x or (mode == 2 and sid not in st_c):
+                            return False
+        return True
+
     def fails(h):
+        if not valid(h["ops"]):
+            return False
         c = dict(case, hist=h)
         r = run_pool([c], run_case, nproc=1, case_timeout=600)[0]
         return bool(r) and "violations" in r and any(x["key"] == key for x in r["violations"])
@@ -944,6 +997,7 @@ def coverage(done, tier):
             "histories_crossing_10000_sample_chunk": tot["cfg_bigchunk"],
             "histories_with_orbital_derivative_entries": tot["cfg_deriv"],
             "histories_with_several_kernels": tot["cfg_multi_kernel"],
+            "exchange_only_store_calls": tot["stores_exchange_only"],
         },
         "spin_modes": {k[5:]: v for k, v in tot.items() if k.startswith("mode_")},
         "versions": {"MOLGP": tot["cfg_v1"], "MOLGP2": tot["cfg_v2"]},
